@@ -26,7 +26,7 @@ def run(ctx):
     W = World(ctx)
     P = ctx.prog
     chk = audit_facts.Checker(ctx, W)
-    ok, why = chk.check("paired_pushes")
+    ok, why = chk.check("every_accepted_request_queued")
     ctx.check("paired-pushes", "add_request-functions", ok, why, "leaves and queued requests are not pushed pairwise: " + why)
 
     # ------------------------------------------------------------------ routing
